@@ -221,8 +221,11 @@ def check_property(pid, tier, seed):
             emit_violation(ctx, "driver-build", _first_lean_error(logtxt),
                            dict(failing_input=None, broken="lake build pcdrv", log=logtxt[-4000:]))
             return finish(ctx, mod, "")
-        rc, logtxt, secs = core.lake_build([lean_mod])
+        # EXTRA_MODULES: further property-theorem files of this property (PcProps/<Cxx><Suffix>.lean), audited the same way
+        lean_mods = [lean_mod] + ["PcProps." + m for m in getattr(mod, "EXTRA_MODULES", [])]
+        rc, logtxt, secs = core.lake_build(lean_mods)
         res.extra["lake_secs"] = round(secs, 1)
+        res.extra["lean_modules"] = lean_mods
         proof_broken = None
         if rc != 0:
             proof_broken = _first_lean_error(logtxt)
@@ -230,9 +233,12 @@ def check_property(pid, tier, seed):
         hits = core.source_audit()
         declared, ax = [], {}
         if proof_broken is None:
-            declared, ax, raw, arc = core.axiom_audit(lean_mod)
-            if arc != 0:
-                proof_broken = _first_lean_error(raw)
+            for lm in lean_mods:
+                d1, ax1, raw, arc = core.axiom_audit(lm)
+                declared += d1
+                ax.update(ax1)
+                if arc != 0 and proof_broken is None:
+                    proof_broken = _first_lean_error(raw)
         gen_obl = getattr(mod, "generated_obligations", lambda: 0)()
         res.obligations = len(declared) + gen_obl
         bad = []
@@ -260,10 +266,11 @@ def check_property(pid, tier, seed):
             if not handled:
                 default_search(ctx, proof_broken, bad, all_dis)
         if tier == "thorough" and not res.violations:
-            rc, out, err, secs = core.run(["lake", "env", "leanchecker", lean_mod], cwd=core.LEAN, timeout=3600)
-            res.extra["leanchecker"] = dict(rc=rc, secs=round(secs, 1), tail=(out + err)[-300:])
-            if rc != 0:
-                emit_violation(ctx, "leanchecker", (out + err)[-1500:], dict(failing_input=None, broken="leanchecker " + lean_mod))
+            for lm in lean_mods:
+                rc, out, err, secs = core.run(["lake", "env", "leanchecker", lm], cwd=core.LEAN, timeout=3600)
+                res.extra.setdefault("leanchecker", {})[lm] = dict(rc=rc, secs=round(secs, 1), tail=(out + err)[-300:])
+                if rc != 0:
+                    emit_violation(ctx, "leanchecker", (out + err)[-1500:], dict(failing_input=None, broken="leanchecker " + lm))
     except core.BuildError as e:
         emit_violation(ctx, "build", str(e)[-3000:], dict(failing_input=None, broken="build of /repo or harness"))
     except Exception as e:
